@@ -25,6 +25,18 @@ EXEMPT = {
 }
 
 
+def _limit_reached(k, v) -> bool:
+    """recorded comparison `counter (+1) == limit` true, or `counter (+1) >= limit` true (limit with a negative coefficient)"""
+    if not (isinstance(k, tuple) and len(k) == 3 and k[0] in ("eq0", "ge") and isinstance(k[1], tuple)):
+        return False
+    lim = [(t, c) for t, c in k[1] if "_expiration_limit" in repr(t)]
+    if not lim or len(k[1]) != 1:
+        return False
+    if k[0] == "eq0":
+        return v is True
+    return (v is True and lim[0][1] < 0) or (v is False and lim[0][1] > 0 and False)
+
+
 def check(ctx: Ctx, ev: Evidence) -> list[Finding]:
     out: list[Finding] = []
     ev.rule("C04-R1", "counter discipline and exact limit comparison of the EOF/ACK, Finished/ACK and deferred NAK procedures", 12)
@@ -142,9 +154,11 @@ def check(ctx: Ctx, ev: Evidence) -> list[Finding]:
             if not cancelling or state_of(a, e.pre) != "BUSY":
                 continue
             faults = [x for x in e.ev if x.kind == "env" and x.name in ("fault.abandoned_cb", "fault.notice_of_cancellation_cb")]
-            if not faults:
+            # the limit itself: a recorded comparison of a retry counter with a configured *_expiration_limit that came out true
+            limit_hit = any(_limit_reached(k, v) for k, v in e.ch)
+            if not faults and not limit_hit:
                 continue
-            abandoned = all(x.name == "fault.abandoned_cb" for x in faults) and state_of(a, e.post) == "IDLE"
+            abandoned = bool(faults) and all(x.name == "fault.abandoned_cb" for x in faults) and state_of(a, e.post) == "IDLE"
             if abandoned:
                 n_ok += 1
             else:
